@@ -50,11 +50,15 @@ var addrFieldNames = map[string]bool{"Owner": true, "Sender": true, "Receiver": 
 var denomFieldNames = map[string]bool{"Denom": true}
 
 const (
-	tEnum    gtype = "Enum"    // a protobuf enum (int32 constants)
-	tSigners gtype = "Signers" // Params.EntSigners: the comma-separated list of addresses, abstract: the list itself
-	tModAcc  gtype = "ModAcc"  // a module account handle as returned by Get<Module>Account (nil when not set)
-	tAnyMsg  gtype = "AnyMsg"  // an sdk.Msg: one of the module's message structs or something else
-	tTx      gtype = "Tx"      // sdk.Tx / sdk.FeeTx: messages, fee, fee payer
+	tEnum     gtype = "Enum"     // a protobuf enum (int32 constants)
+	tSigners  gtype = "Signers"  // Params.EntSigners: the comma-separated list of addresses, abstract: the list itself
+	tModAcc   gtype = "ModAcc"   // a module account handle as returned by Get<Module>Account (nil when not set)
+	tAnyMsg   gtype = "AnyMsg"   // an sdk.Msg: one of the module's message structs or something else
+	tTx       gtype = "Tx"       // sdk.Tx / sdk.FeeTx: messages, fee, fee payer
+	tPageReq  gtype = "PageReq"  // *query.PageRequest (abstract: what it selects from an ordered listing, lib/GoSdk.v)
+	tPageResp gtype = "PageResp" // *query.PageResponse
+	tErrV     gtype = "ErrVal"   // an error value carried to the return (deferred-error idiom)
+	tEmptyLit gtype = "EmptyLit" // the literal ""
 )
 
 func isStruct(t gtype) bool { return strings.HasPrefix(string(t), "S:") }
@@ -98,6 +102,12 @@ func coqTypeK(t gtype) string {
 		return "go_anymsg"
 	case tTx:
 		return "go_tx"
+	case tPageReq:
+		return "go_PageRequest"
+	case tPageResp:
+		return "go_PageResponse"
+	case tErrV:
+		return "(option Z)"
 	}
 	if isStruct(t) {
 		return "go_" + structName(t)
@@ -126,6 +136,10 @@ func zeroOf(t gtype) string {
 		return "[]"
 	case tUnit:
 		return "tt"
+	case tPageReq:
+		return "go_zero_PageRequest"
+	case tPageResp:
+		return "go_zero_PageResponse"
 	case tStr:
 		return "EmptyString"
 	case tEnum:
@@ -175,7 +189,7 @@ func goTypeK(e ast.Expr) gtype {
 		return tDec
 	case "sdk.Coin", "types.Coin":
 		return tCoin
-	case "sdk.Coins":
+	case "sdk.Coins", "github_com_cosmos_cosmos_sdk_types.Coins":
 		return tCoins
 	case "sdk.AccAddress":
 		return tAddr
@@ -187,6 +201,10 @@ func goTypeK(e ast.Expr) gtype {
 		return tTx
 	case "sdk.Msg":
 		return tAnyMsg
+	case "query.PageRequest":
+		return tPageReq
+	case "query.PageResponse":
+		return tPageResp
 	}
 	n = strings.TrimPrefix(n, "types.")
 	if _, ok := structTable[n]; ok {
@@ -226,6 +244,7 @@ type moduleSpec struct {
 	typeFuncs [][2]string // (file of x/<module>/types, function): pure helpers of package types translated too
 	rootFiles []string    // files of x/<module>/ (package root: genesis.go) whose functions may be listed in want
 	anteFiles []string    // files relative to x/<module>/ (ante/ante.go, exported/exported.go) whose functions may be listed
+	callbacks []string    // list-query handlers whose query.FilteredPaginate callback is translated (go_<Handler>_callback)
 }
 
 type constDef struct {
@@ -238,6 +257,9 @@ var cur *moduleSpec
 var structTable = map[string][]field{}
 var structOrder []string
 
+// protobuf enum value names (<Enum>_name maps of the .pb.go files): "STATUS_NIL" -> "0"
+var enumNames = map[string]string{}
+
 // typed enum constants of the protobuf files: Go name -> value
 var enumConsts = map[string]string{}
 var enumOrder []string
@@ -248,6 +270,7 @@ func loadStructs(repo string) {
 	structOrder = nil
 	enumConsts = map[string]string{}
 	enumOrder = nil
+	enumNames = map[string]string{}
 	sliceTypes = map[string]ast.Expr{}
 	if _, err := os.Stat(filepath.Join(repo, "x", cur.name, "types", "types.go")); err == nil {
 		tf := parseFile(filepath.Join(repo, "x", cur.name, "types", "types.go"))
@@ -265,6 +288,23 @@ func loadStructs(repo string) {
 	for _, fn := range cur.pbFiles {
 		f := parseFile(filepath.Join(repo, "x", cur.name, "types", fn))
 		for _, d := range f.Decls {
+			if gd, ok := d.(*ast.GenDecl); ok && gd.Tok == token.VAR {
+				for _, sp := range gd.Specs {
+					vs := sp.(*ast.ValueSpec)
+					if len(vs.Names) != 1 || len(vs.Values) != 1 || !strings.HasSuffix(vs.Names[0].Name, "_name") {
+						continue
+					}
+					if cl, ok := vs.Values[0].(*ast.CompositeLit); ok {
+						for _, el := range cl.Elts {
+							if kv, ok := el.(*ast.KeyValueExpr); ok {
+								if v, ok := kv.Value.(*ast.BasicLit); ok && v.Kind == token.STRING {
+									enumNames[v.Value] = exprName(kv.Key)
+								}
+							}
+						}
+					}
+				}
+			}
 			gd, ok := d.(*ast.GenDecl)
 			if !ok || gd.Tok != token.CONST {
 				continue
@@ -403,13 +443,14 @@ func writeStructTypes(out string) {
 // ---- function signatures ----
 
 type fnSig struct {
-	coq      string
-	stateful bool    // takes the world and returns a new one
-	reads    bool    // takes the world, returns no new one (pure read)
-	impure   bool    // returns an outcome
-	hasErr   bool    // last Go result is `error`
-	results  []gtype // without the error
-	dropCtx  bool    // first Go argument is the context
+	coq       string
+	stateful  bool    // takes the world and returns a new one
+	reads     bool    // takes the world, returns no new one (pure read)
+	impure    bool    // returns an outcome
+	hasErr    bool    // last Go result is `error`
+	results   []gtype // without the error
+	dropCtx   bool    // first Go argument is the context
+	zeroOnErr bool    // on error the Go function returns the zero values of its other results (allows the deferred-error idiom)
 }
 
 // primitives: described by hand in model/StreamKeeperPrims.v, lib/GoSdk.v or produced in GeneratedFns.v
@@ -473,6 +514,7 @@ var kMethodTable = map[methodKey]fnSig{
 	{tTx, "GetFee"}:         {coq: "Tx_Fee", results: []gtype{tCoins}},
 	{tTx, "FeePayer"}:       {coq: "Tx_FeePayer", results: []gtype{tAddr}},
 	{tCoin, "IsPositive"}:   {coq: "Coin_IsPositive", results: []gtype{tBool}},
+	{tInt, "Uint64"}:        {coq: "Int_Uint64", impure: true, results: []gtype{tUint64}},
 }
 
 // package-level / keeper-field constants
@@ -557,6 +599,9 @@ var enterprisePrims = map[string]fnSig{
 	"k.bankKeeper.DelegateCoinsFromAccountToModule":   {coq: "bank_DelegateCoinsFromAccountToModule", stateful: true, impure: true, hasErr: true, dropCtx: true},
 	"k.bankKeeper.UndelegateCoinsFromModuleToAccount": {coq: "bank_UndelegateCoinsFromModuleToAccount", stateful: true, impure: true, hasErr: true, dropCtx: true},
 	"k.bankKeeper.SpendableCoins":                     {coq: "bank_SpendableCoins", reads: true, results: []gtype{tCoins}, dropCtx: true},
+	"k.bankKeeper.GetSupply":                          {coq: "bank_GetSupply", reads: true, results: []gtype{tCoin}, dropCtx: true},
+	"k.bankKeeper.GetBalance":                         {coq: "bank_GetBalance", reads: true, results: []gtype{tCoin}, dropCtx: true},
+	"k.bankKeeper.GetPaginatedTotalSupply":            {coq: "bank_GetPaginatedTotalSupply", reads: true, impure: true, hasErr: true, zeroOnErr: true, results: []gtype{tCoins, tPageResp}, dropCtx: true},
 	"sdk.NewCoins":                                    {coq: "sdk_NewCoins1", impure: true, results: []gtype{tCoins}},
 	"sdk.NewCoin":                                     {coq: "sdk_NewCoin", impure: true, results: []gtype{tCoin}},
 	"sdk.NewInt64Coin":                                {coq: "sdk_NewCoin", impure: true, results: []gtype{tCoin}},
@@ -592,15 +637,18 @@ var enterprisePrims = map[string]fnSig{
 }
 
 var modules = map[string]*moduleSpec{
-	"enterprise": {name: "enterprise", pbFiles: []string{"enterprise.pb.go", "tx.pb.go", "genesis.pb.go"}, rootFiles: []string{"genesis.go"}, goFiles: []string{"locked.go", "blocker.go", "purchase.go", "whitelist.go", "msg_server.go"},
-		want: []string{"sendCoinsFromModuleToAccount", "incrementSpentEFUND", "incrementLockedUnd", "decrementLockedUnd", "MintCoinsAndLock", "UnlockCoinsForFees",
+	"enterprise": {name: "enterprise", pbFiles: []string{"enterprise.pb.go", "tx.pb.go", "genesis.pb.go", "query.pb.go"}, rootFiles: []string{"genesis.go"}, goFiles: []string{"locked.go", "blocker.go", "purchase.go", "whitelist.go", "msg_server.go", "grpc_query.go"},
+		want: []string{"GetTotalUnLockedUnd", "GetTotalUndSupply", "GetEnterpriseSupplyIncludingLockedUnd", "GetTotalSupplyWithLockedNundRemoved",
+			"GetSupplyOfWithLockedNundRemoved", "GetEnterpriseUserAccount",
+			"TotalLocked", "TotalUnlocked", "EnterpriseSupply", "TotalSupply", "TotalSupplyOverwrite", "SupplyOf", "SupplyOfOverwrite",
+			"sendCoinsFromModuleToAccount", "incrementSpentEFUND", "incrementLockedUnd", "decrementLockedUnd", "MintCoinsAndLock", "UnlockCoinsForFees",
 			"ProcessAcceptedPurchaseOrders", "TallyPurchaseOrderDecisions",
 			"RaiseNewPurchaseOrder", "IsAuthorisedToDecide", "ProcessPurchaseOrderDecision", "ProcessWhitelistAction",
 			"UndPurchaseOrder", "ProcessUndPurchaseOrder", "WhitelistAddress", "UpdateParams", "InitGenesis", "ExportGenesis"},
 		typeFuncs: [][2]string{{"purchase_order_status.go", "ValidPurchaseOrderAcceptRejectStatus"}, {"whitelist_action.go", "ValidWhitelistAction"},
 			{"params.go", "validateDenom"}, {"params.go", "validateMinAccepts"}, {"params.go", "validateDecisionLimit"}, {"params.go", "validateEntSigners"}, {"params.go", "Params.Validate"}},
-		msgTypes: []string{"MsgUndPurchaseOrder", "MsgProcessUndPurchaseOrder", "MsgWhitelistAddress"},
-		prims:    enterprisePrims, consts: map[string]constDef{"types.ModuleName": {"MOD_enterprise", tModName}, "k.authority": {"KEEPER_authority", tAddrStr}}, world: "eworld",
+		msgTypes: []string{"MsgUndPurchaseOrder", "MsgProcessUndPurchaseOrder", "MsgWhitelistAddress"}, callbacks: []string{"EnterpriseUndPurchaseOrders"},
+		prims: enterprisePrims, consts: map[string]constDef{"types.ModuleName": {"MOD_enterprise", tModName}, "k.authority": {"KEEPER_authority", tAddrStr}}, world: "eworld",
 		imports:  "lib.Prelude lib.GoSdk GeneratedEnterpriseTypes model.EnterpriseKeeperPrims",
 		typesMod: "GeneratedEnterpriseTypes", keeperMod: "GeneratedEnterpriseKeeper", listName: "enterprise_keeper_other_functions"},
 	"stream": {name: "stream", typeFuncs: [][2]string{{"params.go", "validateBaseValidatorFee"}, {"params.go", "Params.Validate"}}, pbFiles: []string{"params.pb.go", "stream.pb.go", "tx.pb.go", "genesis.pb.go"}, goFiles: []string{"stream.go", "msg_server.go", "genesis.go"},
@@ -610,22 +658,22 @@ var modules = map[string]*moduleSpec{
 		imports:  "lib.Prelude lib.GoSdk GeneratedFns GeneratedStreamTypes model.StreamKeeperPrims",
 		typesMod: "GeneratedStreamTypes", keeperMod: "GeneratedStreamKeeper", listName: "stream_keeper_other_functions",
 		msgTypes: []string{"MsgCreateStream", "MsgClaimStream", "MsgTopUpDeposit", "MsgUpdateFlowRate", "MsgCancelStream"}},
-	"wrkchain": {name: "wrkchain", pbFiles: []string{"wrkchain.pb.go", "tx.pb.go", "genesis.pb.go"}, rootFiles: []string{"genesis.go"}, typeFuncs: [][2]string{{"params.go", "validateFeeDenom"}, {"params.go", "validateFeeRegister"}, {"params.go", "validateFeeRecord"}, {"params.go", "validateFeePurchaseStorage"}, {"params.go", "validateDefaultStorageLimit"}, {"params.go", "validateMaxStorageLimit"}, {"params.go", "Params.Validate"}, {"genesis.go", "NewGenesisState"}}, goFiles: []string{"register.go", "record.go", "msg_server.go"},
+	"wrkchain": {name: "wrkchain", pbFiles: []string{"wrkchain.pb.go", "tx.pb.go", "genesis.pb.go", "query.pb.go"}, rootFiles: []string{"genesis.go"}, typeFuncs: [][2]string{{"params.go", "validateFeeDenom"}, {"params.go", "validateFeeRegister"}, {"params.go", "validateFeeRecord"}, {"params.go", "validateFeePurchaseStorage"}, {"params.go", "validateDefaultStorageLimit"}, {"params.go", "validateMaxStorageLimit"}, {"params.go", "Params.Validate"}, {"genesis.go", "NewGenesisState"}}, goFiles: []string{"register.go", "record.go", "msg_server.go", "grpc_query.go"},
 		want: []string{"QuickCheckHeightIsNew", "GetMaxPurchasableSlots", "IncreaseInStateStorage", "RegisterNewWrkChain", "RecordNewWrkchainHashes",
 			"RegisterWrkChain", "RecordWrkChainBlock", "PurchaseWrkChainStateStorage", "UpdateParams", "InitGenesis", "ExportGenesis", "CheckIsWrkChainTx", "checkWrkchainFees"},
 		anteFiles: []string{"ante/ante.go", "exported/exported.go"},
 		prims:     registryPrims("WrkChain", "WrkChainBlock"), consts: registryConsts, world: "rworld",
 		imports:  "lib.Prelude lib.GoSdk GeneratedWrkchainTypes model.WrkchainKeeperPrims",
 		typesMod: "GeneratedWrkchainTypes", keeperMod: "GeneratedWrkchainKeeper", listName: "wrkchain_keeper_other_functions",
-		msgTypes: []string{"MsgRegisterWrkChain", "MsgRecordWrkChainBlock", "MsgPurchaseWrkChainStateStorage"}},
-	"beacon": {name: "beacon", pbFiles: []string{"beacon.pb.go", "tx.pb.go", "genesis.pb.go"}, rootFiles: []string{"genesis.go"}, typeFuncs: [][2]string{{"params.go", "validateFeeDenom"}, {"params.go", "validateFeeRegister"}, {"params.go", "validateFeeRecord"}, {"params.go", "validateFeePurchaseStorage"}, {"params.go", "validateDefaultStorageLimit"}, {"params.go", "validateMaxStorageLimit"}, {"params.go", "Params.Validate"}, {"genesis.go", "NewGenesisState"}}, goFiles: []string{"register.go", "record.go", "msg_server.go"},
+		msgTypes: []string{"MsgRegisterWrkChain", "MsgRecordWrkChainBlock", "MsgPurchaseWrkChainStateStorage"}, callbacks: []string{"WrkChainsFiltered"}},
+	"beacon": {name: "beacon", pbFiles: []string{"beacon.pb.go", "tx.pb.go", "genesis.pb.go", "query.pb.go"}, rootFiles: []string{"genesis.go"}, typeFuncs: [][2]string{{"params.go", "validateFeeDenom"}, {"params.go", "validateFeeRegister"}, {"params.go", "validateFeeRecord"}, {"params.go", "validateFeePurchaseStorage"}, {"params.go", "validateDefaultStorageLimit"}, {"params.go", "validateMaxStorageLimit"}, {"params.go", "Params.Validate"}, {"genesis.go", "NewGenesisState"}}, goFiles: []string{"register.go", "record.go", "msg_server.go", "grpc_query.go"},
 		want: []string{"GetMaxPurchasableSlots", "IncreaseInStateStorage", "RegisterNewBeacon", "RecordNewBeaconTimestamp",
 			"RegisterBeacon", "RecordBeaconTimestamp", "PurchaseBeaconStateStorage", "UpdateParams", "InitGenesis", "ExportGenesis", "CheckIsBeaconTx", "checkBeaconFees"},
 		anteFiles: []string{"ante/ante.go", "exported/exported.go"},
 		prims:     registryPrims("Beacon", "BeaconTimestamp"), consts: registryConsts, world: "rworld",
 		imports:  "lib.Prelude lib.GoSdk GeneratedBeaconTypes model.BeaconKeeperPrims",
 		typesMod: "GeneratedBeaconTypes", keeperMod: "GeneratedBeaconKeeper", listName: "beacon_keeper_other_functions",
-		msgTypes: []string{"MsgRegisterBeacon", "MsgRecordBeaconTimestamp", "MsgPurchaseBeaconStateStorage"}},
+		msgTypes: []string{"MsgRegisterBeacon", "MsgRecordBeaconTimestamp", "MsgPurchaseBeaconStateStorage"}, callbacks: []string{"BeaconsFiltered"}},
 }
 
 type kbinding struct {
@@ -743,6 +791,9 @@ func (kt *kTrans) call(t *ast.CallExpr) (pre []kbinding, term string, sig fnSig,
 		}
 	}
 	for _, a := range goArgs {
+		if id, isId := a.(*ast.Ident); isId && kt.env[id.Name] == tCtx {
+			continue // a context under another name (goCtx, c): the world is passed instead
+		}
 		p, v, _ := kt.expr(a)
 		pre = append(pre, p...)
 		args = append(args, v)
@@ -758,6 +809,19 @@ func (kt *kTrans) call(t *ast.CallExpr) (pre []kbinding, term string, sig fnSig,
 		term = sig.coq
 	}
 	return pre, term, sig, true
+}
+
+// enumOfString: for `e.String()` with e of a protobuf enum type, e
+func (kt *kTrans) enumOfString(e ast.Expr) (ast.Expr, bool) {
+	ce, ok := e.(*ast.CallExpr)
+	if !ok || len(ce.Args) != 0 {
+		return nil, false
+	}
+	sel, ok := ce.Fun.(*ast.SelectorExpr)
+	if !ok || sel.Sel.Name != "String" {
+		return nil, false
+	}
+	return sel.X, true
 }
 
 // expr translates an expression (no state change allowed inside expressions)
@@ -783,6 +847,9 @@ func (kt *kTrans) expr(e ast.Expr) (pre []kbinding, val string, typ gtype) {
 	case *ast.BasicLit:
 		if t.Kind == token.INT {
 			return nil, t.Value, tInt64
+		}
+		if t.Kind == token.STRING && t.Value == "\"\"" {
+			return nil, "EmptyString", tEmptyLit // takes the type of what it is compared with
 		}
 		kt.fail("unsupported literal %s", t.Value)
 		return nil, "?", tUnknown
@@ -892,6 +959,20 @@ func (kt *kTrans) expr(e ast.Expr) (pre []kbinding, val string, typ gtype) {
 			}
 			return p, "(Denom_IsBlank " + v + ")", tBool
 		}
+		if lit, isLit := t.Y.(*ast.BasicLit); isLit && lit.Kind == token.STRING && (t.Op == token.EQL || t.Op == token.NEQ) {
+			if ex, ok := kt.enumOfString(t.X); ok {
+				// e.String() == "NAME" for a protobuf enum: the names are distinct, an unnamed value prints as a number
+				p, v, ty := kt.expr(ex)
+				n, known := enumNames[lit.Value]
+				if ty == tEnum && known {
+					eq := "(" + v + " =? " + n + ")"
+					if t.Op == token.NEQ {
+						eq = "(negb " + eq + ")"
+					}
+					return p, eq, tBool
+				}
+			}
+		}
 		p1, a, ta := kt.expr(t.X)
 		p2, b, tb := kt.expr(t.Y)
 		pre = append(p1, p2...)
@@ -919,6 +1000,13 @@ func (kt *kTrans) expr(e ast.Expr) (pre []kbinding, val string, typ gtype) {
 				isn = "(modacc_is_nil " + a + ")"
 			case isList(ta) || ta == tCoins:
 				isn = "(go_is_nil " + a + ")"
+			case isStruct(ta):
+				// a pointer to a request / message struct handed in by the caller: never nil (the gRPC and message
+				// routers hand in the decoded message)
+				if _, isIdent := t.X.(*ast.Ident); !isIdent {
+					kt.fail("comparison of a %s expression with nil", ta)
+				}
+				isn = "false"
 			default:
 				kt.fail("comparison of %s with nil", ta)
 				isn = "?"
@@ -931,6 +1019,9 @@ func (kt *kTrans) expr(e ast.Expr) (pre []kbinding, val string, typ gtype) {
 		switch t.Op {
 		case token.EQL, token.NEQ:
 			var eq string
+			if tb == tEmptyLit && (ta == tDenom || ta == tAddrStr || ta == tStr) {
+				b, tb = zeroOf(ta), ta
+			}
 			switch {
 			case ta == tb && ta == tStr:
 				eq = "(String.eqb " + a + " " + b + ")"
@@ -972,8 +1063,41 @@ func (kt *kTrans) expr(e ast.Expr) (pre []kbinding, val string, typ gtype) {
 		return pre, "?", tUnknown
 	case *ast.CallExpr:
 		name := exprName(t.Fun)
+		if name == "strings.EqualFold" && len(t.Args) == 2 {
+			ea, oka := kt.enumOfString(t.Args[0])
+			eb, okb := kt.enumOfString(t.Args[1])
+			if oka && okb {
+				p1, a, ta := kt.expr(ea)
+				p2, b, tb := kt.expr(eb)
+				if ta == tEnum && tb == tEnum {
+					// the names of a protobuf enum are distinct also up to case; unnamed values print as numbers
+					return append(p1, p2...), "(" + a + " =? " + b + ")", tBool
+				}
+			}
+			p1, a, ta := kt.expr(t.Args[0])
+			p2, b, tb := kt.expr(t.Args[1])
+			if ta == tAddrStr && tb == tAddrStr {
+				return append(p1, p2...), "(AddrStr_EqualFold " + a + " " + b + ")", tBool
+			}
+			kt.fail("strings.EqualFold on %s, %s", ta, tb)
+			return nil, "?", tUnknown
+		}
+		if sel, isSel := t.Fun.(*ast.SelectorExpr); isSel && len(t.Args) == 0 && strings.HasPrefix(sel.Sel.Name, "Get") {
+			// protobuf getter m.GetF() on a non-nil message: the field
+			if id, isId := sel.X.(*ast.Ident); isId && isStruct(kt.env[id.Name]) {
+				fname := strings.TrimPrefix(sel.Sel.Name, "Get")
+				for _, f := range structTable[structName(kt.env[id.Name])] {
+					if f.name == fname {
+						return nil, "(" + structName(kt.env[id.Name]) + "_" + f.name + " " + id.Name + ")", f.typ
+					}
+				}
+			}
+		}
 		if name == "len" && len(t.Args) == 1 {
 			p, v, ty := kt.expr(t.Args[0])
+			if ty == tAddrStr {
+				return p, "(AddrStr_len " + v + ")", tInt64
+			}
 			if isList(ty) {
 				return p, "(go_len_list " + v + ")", tInt64
 			}
@@ -1089,6 +1213,9 @@ func isErrCheck(s ast.Stmt, errName string) (bool, string) {
 	if ce, ok := last.(*ast.CallExpr); ok && isNewErr(exprName(ce.Fun)) {
 		return true, cur.name + "_ErrInvalidParams"
 	}
+	if ce, ok := last.(*ast.CallExpr); ok && isStatusErr(exprName(ce.Fun)) && len(ce.Args) >= 1 {
+		return true, "grpc_" + errConst(ce.Args[0])
+	}
 	if ce, ok := last.(*ast.CallExpr); ok && isWrap(exprName(ce.Fun)) && len(ce.Args) >= 1 {
 		if exprName(ce.Args[0]) == errName {
 			return true, "" // the same error, annotated
@@ -1099,6 +1226,32 @@ func isErrCheck(s ast.Stmt, errName string) (bool, string) {
 }
 
 func isNewErr(fn string) bool { return fn == "fmt.Errorf" || fn == "errors.New" }
+
+// status.Error(codes.X, ..) of google.golang.org/grpc/status: the gRPC status code is the error class
+func isStatusErr(fn string) bool { return fn == "status.Error" || fn == "status.Errorf" }
+
+// errOnlyReturned: every use of the error variable in the statements is as the last value of a return
+func errOnlyReturned(list []ast.Stmt, errName string) bool {
+	uses, rets := 0, 0
+	for _, st := range list {
+		ast.Inspect(st, func(n ast.Node) bool {
+			switch x := n.(type) {
+			case *ast.Ident:
+				if x.Name == errName {
+					uses++
+				}
+			case *ast.ReturnStmt:
+				if len(x.Results) > 0 && exprName(x.Results[len(x.Results)-1]) == errName {
+					if _, isId := x.Results[len(x.Results)-1].(*ast.Ident); isId {
+						rets++
+					}
+				}
+			}
+			return true
+		})
+	}
+	return uses > 0 && uses == rets
+}
 
 func isWrap(fn string) bool {
 	return fn == "sdkerrors.Wrap" || fn == "sdkerrors.Wrapf" || fn == "errorsmod.Wrap" || fn == "errorsmod.Wrapf"
@@ -1135,6 +1288,24 @@ func (kt *kTrans) bindCall(lhs []ast.Expr, ce *ast.CallExpr, rest []ast.Stmt) (s
 		okc, remap := false, ""
 		if errName != "_" && len(rest) > 0 {
 			okc, remap = isErrCheck(rest[0], errName)
+		}
+		if !okc && sig.zeroOnErr && errName != "_" && errOnlyReturned(rest, errName) {
+			// deferred error: `v.., err := f(..)` ... `return .., err`.  On error f returns zero values (zeroOnErr) and
+			// execution goes on with them; the error is delivered by the return statements.
+			var names, zeros []string
+			for i := 0; i < nval; i++ {
+				n := exprName(lhs[i])
+				if n != "_" {
+					kt.env[n] = sig.results[i]
+				}
+				names = append(names, n)
+				zeros = append(zeros, zeroOf(sig.results[i]))
+			}
+			kt.env[errName] = tErrV
+			if sig.stateful {
+				return kwrap(pre, "do ((w, "+tuple(names)+"), "+errName+") <- (catch_err (w, "+tuple(zeros)+") "+term+");\n"), rest, true
+			}
+			return kwrap(pre, "do ("+tuple(names)+", "+errName+") <- (catch_err "+tuple(zeros)+" "+term+");\n"), rest, true
 		}
 		if !okc {
 			kt.fail("call %s: the error is not propagated by the next statement", name)
@@ -1278,6 +1449,21 @@ func (kt *kTrans) stmts(list []ast.Stmt) string {
 		}
 		return out + kt.stmts(rest)
 	case *ast.AssignStmt:
+		if len(t.Rhs) > 1 && len(t.Rhs) == len(t.Lhs) {
+			// a, b := x, y with constant right-hand sides: one after the other
+			out := ""
+			for i := range t.Rhs {
+				id, isId := t.Lhs[i].(*ast.Ident)
+				rid, isRId := t.Rhs[i].(*ast.Ident)
+				if !isId || !isRId || (rid.Name != "true" && rid.Name != "false") {
+					kt.fail("unsupported parallel assignment")
+					return "?"
+				}
+				kt.env[id.Name] = tBool
+				out += "let " + id.Name + " := " + rid.Name + " in\n"
+			}
+			return out + kt.stmts(rest)
+		}
 		if len(t.Rhs) != 1 {
 			kt.fail("unsupported parallel assignment")
 			return "?"
@@ -1350,6 +1536,18 @@ func (kt *kTrans) stmts(list []ast.Stmt) string {
 		case *ast.Ident:
 			kt.env[l.Name] = ty
 			return kwrap(pre, "let "+l.Name+" := "+v+" in\n"+kt.stmts(rest))
+		case *ast.IndexExpr:
+			base, ok := l.X.(*ast.Ident)
+			bty := kt.env[exprName(l.X)]
+			if bty == tCoins {
+				bty = gtype("L:" + string(tCoin))
+			}
+			p2, iv, ity := kt.expr(l.Index)
+			if !ok || !isList(bty) || elemOf(bty) != ty || (ity != tInt64 && ity != tUint64) {
+				kt.fail("unsupported element assignment %s[%s] = %s", bty, ity, ty)
+				return "?"
+			}
+			return kwrap(append(pre, p2...), "do "+base.Name+" <- (go_set_index "+base.Name+" "+iv+" "+v+");\n"+kt.stmts(rest))
 		case *ast.SelectorExpr:
 			base, ok := l.X.(*ast.Ident)
 			bty := kt.env[exprName(l.X)]
@@ -1424,13 +1622,34 @@ func (kt *kTrans) ret(results []ast.Expr) string {
 	if kt.hasErr {
 		want++
 	}
+	if len(results) == 1 && want > 1 && len(kt.loops) == 0 {
+		// return f(..) where f has the same results as this function
+		if ce, ok := results[0].(*ast.CallExpr); ok {
+			if sig, found := kt.lookup(kt.callName(ce.Fun)); found && sig.hasErr == kt.hasErr && len(sig.results) == nval && sig.impure {
+				same := true
+				for i := range sig.results {
+					same = same && sig.results[i] == kt.results[i]
+				}
+				pre, term, _, okc := kt.call(ce)
+				if same && okc && sig.stateful == kt.stateful {
+					return kwrap(pre, term)
+				}
+				if same && okc && !sig.stateful && kt.stateful {
+					return kwrap(pre, "do r_ <- "+term+";\nOk (w, r_)")
+				}
+			}
+		}
+	}
 	if len(results) != want {
 		kt.fail("return of %d values, %d expected", len(results), want)
 		return "?"
 	}
+	deferred := ""
 	if kt.hasErr {
 		last := results[len(results)-1]
-		if exprName(last) != "nil" {
+		if id, isId := last.(*ast.Ident); isId && kt.env[id.Name] == tErrV {
+			deferred = id.Name
+		} else if exprName(last) != "nil" {
 			ce, ok := last.(*ast.CallExpr)
 			if ok && nval == 0 {
 				// return f(..) where f returns only an error
@@ -1452,6 +1671,9 @@ func (kt *kTrans) ret(results []ast.Expr) string {
 				if isNewErr(fn) {
 					return "Err " + cur.name + "_ErrInvalidParams"
 				}
+				if isStatusErr(fn) && len(ce.Args) >= 1 {
+					return "Err grpc_" + errConst(ce.Args[0])
+				}
 			}
 			kt.fail("unsupported error value %s", exprName(last))
 			return "?"
@@ -1469,10 +1691,14 @@ func (kt *kTrans) ret(results []ast.Expr) string {
 	if kt.stateful {
 		val = "(w, " + tuple(vals) + ")"
 	}
+	okv := "Ok " + val
 	if len(kt.loops) > 0 {
-		return kwrap(pre, "Ok (LRet "+val+")")
+		okv = "Ok (LRet " + val + ")"
 	}
-	return kwrap(pre, "Ok "+val)
+	if deferred != "" {
+		okv = "ret_err " + deferred + " (" + okv + ")"
+	}
+	return kwrap(pre, okv)
 }
 
 // typeSwitch: `switch msg.(type) { case *types.MsgA: .. case *types.MsgB: .. }` on an sdk.Msg as a match on go_anymsg;
@@ -1574,6 +1800,8 @@ func assignedOuter(body *ast.BlockStmt, env map[string]gtype) []string {
 				id = x
 			case *ast.SelectorExpr:
 				id, _ = x.X.(*ast.Ident)
+			case *ast.IndexExpr:
+				id, _ = x.X.(*ast.Ident)
 			}
 			if id == nil || id.Name == "_" {
 				continue
@@ -1595,12 +1823,37 @@ func assignedOuter(body *ast.BlockStmt, env map[string]gtype) []string {
 	return out
 }
 
+// onlyElementAssigned: inside the block the slice variable is assigned only through `v[i] = e`
+func onlyElementAssigned(body *ast.BlockStmt, v string) bool {
+	ok := true
+	ast.Inspect(body, func(n ast.Node) bool {
+		as, isAs := n.(*ast.AssignStmt)
+		if !isAs {
+			return true
+		}
+		for _, l := range as.Lhs {
+			if id, isId := l.(*ast.Ident); isId && id.Name == v {
+				ok = false
+			}
+			if se, isSel := l.(*ast.SelectorExpr); isSel && exprName(se.X) == v {
+				ok = false
+			}
+		}
+		return true
+	})
+	return ok
+}
+
 // rangeStmt: `for _, x := range xs { body }` as go_range over the list, threading the world and the outer variables
 // the body assigns; `continue` and the end of the body continue with the next element, `return` leaves the function.
 func (kt *kTrans) rangeStmt(t *ast.RangeStmt, rest []ast.Stmt) string {
-	if t.Tok != token.DEFINE || t.Value == nil || (t.Key != nil && exprName(t.Key) != "_") {
+	if t.Tok != token.DEFINE || t.Value == nil {
 		kt.fail("unsupported range form")
 		return "?"
+	}
+	idx := ""
+	if t.Key != nil && exprName(t.Key) != "_" {
+		idx = exprName(t.Key)
 	}
 	pre, xs, xty := kt.expr(t.X)
 	if xty == tCoins {
@@ -1634,8 +1887,26 @@ func (kt *kTrans) rangeStmt(t *ast.RangeStmt, rest []ast.Stmt) string {
 		saved[k] = v
 	}
 	kt.env[x] = elemOf(xty)
+	reread := ""
+	if id, isId := t.X.(*ast.Ident); isId {
+		for _, v := range vars {
+			if v != id.Name {
+				continue
+			}
+			// the ranged slice is assigned inside the loop.  Go evaluates the range expression once, but reads each
+			// element from the (shared) backing array when its turn comes: element assignments made by earlier
+			// iterations are seen.  Supported for element assignments only, with the element re-read by index.
+			if idx == "" || !onlyElementAssigned(t.Body, id.Name) {
+				kt.fail("the ranged slice %s is reassigned inside the loop", id.Name)
+			}
+			reread = "do " + x + " <- (go_index " + id.Name + " " + idx + ");\n"
+		}
+	}
+	if idx != "" {
+		kt.env[idx] = tInt64
+	}
 	kt.loops = append(kt.loops, state)
-	body := kt.stmts(t.Body.List)
+	body := reread + kt.stmts(t.Body.List)
 	kt.loops = kt.loops[:len(kt.loops)-1]
 	kt.env = saved
 	after := kt.stmts(rest)
@@ -1643,7 +1914,11 @@ func (kt *kTrans) rangeStmt(t *ast.RangeStmt, rest []ast.Stmt) string {
 	if len(kt.loops) > 0 {
 		retv = "Ok (LRet r_)"
 	}
-	return kwrap(pre, "do "+lr+" <- (go_range (fun "+x+" "+st+" =>\n"+unpack(body)+") "+xs+" "+state+");\n"+
+	comb := "go_range (fun " + x
+	if idx != "" {
+		comb = "go_range_i (fun " + idx + " " + x
+	}
+	return kwrap(pre, "do "+lr+" <- ("+comb+" "+st+" =>\n"+unpack(body)+") "+xs+" "+state+");\n"+
 		"match "+lr+" with\n| LRet r_ => "+retv+"\n| LCont "+st+" =>\n"+unpack(after)+"\nend")
 }
 
@@ -1703,6 +1978,10 @@ func sigOf(fd *ast.FuncDecl) (fnSig, []field, string) {
 			}
 		}
 		for _, n := range f.Names {
+			if ty == tStr && n.Name == "denom" {
+				params = append(params, field{n.Name, tDenom}) // a string parameter holding a denomination
+				continue
+			}
 			if ty == tCtx && i == 0 {
 				sig.stateful = true
 				sig.dropCtx = n.Name == "ctx"
@@ -1900,6 +2179,25 @@ func writeKeeper(repo, module, typesOut, keeperOut string) {
 		}
 		funcs[key] = sig
 	}
+	// the callbacks of the list queries
+	for _, h := range cur.callbacks {
+		fd, ok := decls[h]
+		if !ok {
+			sb.WriteString("(* NOT FOUND " + h + " *)\n\n")
+			continue
+		}
+		cb, why := callbackDecl(fd)
+		if cb == nil {
+			sb.WriteString("(* NOT TRANSLATED callback of " + h + ": " + why + " *)\n\n")
+			continue
+		}
+		def, errs, _ := translateKeeperFunc(cb, funcs, "")
+		if len(errs) > 0 {
+			sb.WriteString("(* NOT TRANSLATED callback of " + h + ": " + strings.Join(errs, "; ") + " *)\n\n")
+			continue
+		}
+		sb.WriteString(def + "\n")
+	}
 	// every other function of the files is listed, so that a new state-changing function cannot appear unnoticed
 	var others []string
 	inWant := map[string]bool{}
@@ -1975,4 +2273,114 @@ func writeKeeper(repo, module, typesOut, keeperOut string) {
 	}
 	sb.WriteString("Definition " + cur.name + "_primitive_bodies : list (string * string) :=\n  [" + strings.Join(digests, ";\n   ") + "].\n")
 	os.WriteFile(keeperOut, []byte(sb.String()), 0o644)
+}
+
+// callbackDecl: the callback a list-query handler hands to query.FilteredPaginate, as a function of its own:
+//
+//	func (q Keeper) <Handler>_callback(req .., <item> T, accumulate bool, <results> []T) ([]T, bool, error)
+//
+// The callback's `var item T` + `q.cdc.Unmarshal(value, &item)` prologue makes the item a parameter (the stored value,
+// decoded); the result slice it captures from the handler is threaded through (parameter and first result).
+func callbackDecl(fd *ast.FuncDecl) (*ast.FuncDecl, string) {
+	var lit *ast.FuncLit
+	var accName string
+	var accType ast.Expr
+	for _, st := range fd.Body.List {
+		if ds, ok := st.(*ast.DeclStmt); ok {
+			if gd, ok := ds.Decl.(*ast.GenDecl); ok && gd.Tok == token.VAR && len(gd.Specs) == 1 {
+				vs := gd.Specs[0].(*ast.ValueSpec)
+				if _, isArr := vs.Type.(*ast.ArrayType); isArr && len(vs.Names) == 1 && len(vs.Values) == 0 {
+					accName, accType = vs.Names[0].Name, vs.Type
+				}
+			}
+		}
+		as, ok := st.(*ast.AssignStmt)
+		if !ok || len(as.Rhs) != 1 {
+			continue
+		}
+		if ce, ok := as.Rhs[0].(*ast.CallExpr); ok && exprName(ce.Fun) == "query.FilteredPaginate" && len(ce.Args) == 3 {
+			lit, _ = ce.Args[2].(*ast.FuncLit)
+		}
+	}
+	if lit == nil || accName == "" {
+		return nil, "no query.FilteredPaginate callback / result slice found"
+	}
+	ps := lit.Type.Params.List
+	if len(ps) != 3 || len(ps[2].Names) != 1 || exprName(ps[2].Type) != "bool" {
+		return nil, "unexpected callback signature"
+	}
+	body := lit.Body.List
+	if len(body) < 2 {
+		return nil, "callback too short"
+	}
+	ds, ok := body[0].(*ast.DeclStmt)
+	if !ok {
+		return nil, "callback does not start with the item declaration"
+	}
+	vs := ds.Decl.(*ast.GenDecl).Specs[0].(*ast.ValueSpec)
+	if len(vs.Names) != 1 || len(vs.Values) != 0 {
+		return nil, "callback does not start with the item declaration"
+	}
+	item, itemType := vs.Names[0].Name, vs.Type
+	isUnmarshal := func(e ast.Expr) bool {
+		ce, ok := e.(*ast.CallExpr)
+		if !ok || len(ce.Args) != 2 || !strings.HasSuffix(exprName(ce.Fun), ".cdc.Unmarshal") {
+			return false
+		}
+		ue, ok := ce.Args[1].(*ast.UnaryExpr)
+		return ok && ue.Op == token.AND && exprName(ue.X) == item && exprName(ce.Args[0]) == ps[1].Names[0].Name
+	}
+	rest := body[1:]
+	switch t := rest[0].(type) {
+	case *ast.IfStmt: // if err := q.cdc.Unmarshal(value, &item); err != nil { return false, .. }
+		as, ok := t.Init.(*ast.AssignStmt)
+		if !ok || len(as.Rhs) != 1 || !isUnmarshal(as.Rhs[0]) {
+			return nil, "no Unmarshal of the value into the item"
+		}
+		rest = rest[1:]
+	case *ast.AssignStmt: // err := q.cdc.Unmarshal(value, &item); if err != nil { return false, err }
+		if len(t.Rhs) != 1 || !isUnmarshal(t.Rhs[0]) || len(rest) < 2 {
+			return nil, "no Unmarshal of the value into the item"
+		}
+		if okc, _ := isErrCheck(rest[1], exprName(t.Lhs[0])); !okc {
+			return nil, "the Unmarshal error is not returned"
+		}
+		rest = rest[2:]
+	default:
+		return nil, "no Unmarshal of the value into the item"
+	}
+	// the key and the raw value must not be used any further
+	bad := ""
+	for _, st := range rest {
+		ast.Inspect(st, func(n ast.Node) bool {
+			if id, ok := n.(*ast.Ident); ok && (id.Name == ps[1].Names[0].Name || (len(ps[0].Names) == 1 && id.Name == ps[0].Names[0].Name)) {
+				bad = "the callback uses the raw key / value"
+			}
+			if rs, ok := n.(*ast.ReturnStmt); ok {
+				rs.Results = append([]ast.Expr{ast.NewIdent(accName)}, rs.Results...)
+			}
+			return true
+		})
+	}
+	if bad != "" {
+		return nil, bad
+	}
+	var params []*ast.Field
+	for i, p := range fd.Type.Params.List {
+		if i == 0 {
+			continue // the context
+		}
+		params = append(params, p)
+	}
+	params = append(params,
+		&ast.Field{Names: []*ast.Ident{ast.NewIdent(item)}, Type: itemType},
+		&ast.Field{Names: []*ast.Ident{ast.NewIdent(ps[2].Names[0].Name)}, Type: ast.NewIdent("bool")},
+		&ast.Field{Names: []*ast.Ident{ast.NewIdent(accName)}, Type: accType})
+	results := []*ast.Field{{Type: accType}, {Type: ast.NewIdent("bool")}, {Type: ast.NewIdent("error")}}
+	return &ast.FuncDecl{
+		Recv: fd.Recv,
+		Name: ast.NewIdent(fd.Name.Name + "_callback"),
+		Type: &ast.FuncType{Params: &ast.FieldList{List: params}, Results: &ast.FieldList{List: results}},
+		Body: &ast.BlockStmt{List: rest},
+	}, ""
 }
